@@ -677,8 +677,74 @@ def jsonable(c):
     return json.loads(json.dumps(c))
 
 
+# ---------------------------------------------------------------------------------------------
+# integer constants of delete.go -> Params_Sql3VL and file-count boundary cases
+# ---------------------------------------------------------------------------------------------
+def translate_params():
+    """Every package-level integer constant of internal/api/delete.go, evaluated by the Go compiler from the
+    CURRENT source.  The model has no batching, chunking or limit on the number of files, so any such constant
+    that is a plausible file count is a boundary the generator must straddle."""
+    decls = [c for c in vlib.goast("consts", "internal/api") if c["file"] == "internal/api/delete.go" and c["kind"] == "const"
+             and c.get("value") and re.fullmatch(r"[0-9_\s+\-*/()<A-Za-z]+", c["value"]) and not re.search(r"[\"'`.]", c["value"])]
+    items = [("c:" + c["name"], c["file"], c["name"]) for c in decls]
+    vals = {}
+    if items:
+        try:
+            vals = {k[2:]: v for k, v in vlib.go_eval_consts(items).items()}
+        except vlib.TieBroken:
+            for it in items:                       # one non-integer constant must not hide the others
+                try:
+                    vals[it[0][2:]] = vlib.go_eval_consts([it])[it[0]]
+                except vlib.TieBroken:
+                    pass
+    body = "(* GENERATED by tools/props/C10.py from the current /repo sources - do not edit *)\n"
+    body += "From Coq Require Import ZArith List String.\nImport ListNotations.\nOpen Scope Z_scope.\nOpen Scope string_scope.\n"
+    body += "(* package-level integer constants of internal/api/delete.go, evaluated by the Go compiler *)\n"
+    body += "Definition delete_int_consts : list (string * Z) := [" + "; ".join('("%s", %d)' % (k, v) for k, v in sorted(vals.items())) + "].\n"
+    vlib.write_params("Params_Sql3VL", body)
+    return vals
+
+
+def big_case(rng, nfiles, marks, note):
+    """a measurement of many tiny files (listing order = index order), predicate a = 1; the files at the indices in
+    `marks` hold a selected row (plus rows that must stay)"""
+    files = []
+    nid = 1
+    for i in range(nfiles):
+        rows = []
+        for k in range(rng.choice([1, 2, 2, 3])):
+            rows.append([("n", 4 * nid), rng.choice([("n", 8), ("n", 12), None]), None, ("s", "a"), ("b", True), ("t", T0)])
+            nid += 1
+        if i in marks:
+            rows[rng.randrange(len(rows))][1] = ("n", 4)
+            rows.append([("n", 4 * nid), ("n", 8), None, ("s", "b"), ("b", False), ("t", T0)])      # so that the file survives
+            nid += 1
+        files.append({"path": "c0/m/2024/01/%02d/%02d/f%04d.parquet" % (1 + i // 2400, (i // 100) % 24, i), "rows": rows,
+                      "schema": {"a": "int", "x": "dbl", "missing": []}})
+    p = ("cmp", "=", ("col", 1), ("lit", ("n", 4), "int"))
+    return {"id": 0, "kind": "many-files", "note": note, "files": files, "confirm": True, "threshold": 10 ** 6, "max_rows": 10 ** 9,
+            "full": False, "class": "WValid", "where": sql_pred(p), "pred": p}
+
+
+def big_cases(rng, consts):
+    """file counts c-1, c, c+1, 2c, 2c+1 for every integer constant c <= 2000 of delete.go, selected rows in the first
+    file, in the last file of every block of c files and in the file after it; without such a constant one
+    130-file measurement with a selected row in every file"""
+    out = []
+    for name, c in sorted(consts.items()):
+        if not (2 <= c <= 2000):
+            continue
+        for n in (c - 1, c, c + 1, 2 * c, 2 * c + 1):
+            marks = {0, n - 1} | {k * c - 1 for k in range(1, n // c + 1)} | {k * c for k in range(1, n // c + 1) if k * c < n}
+            marks |= {i for i in range(n) if rng.random() < 0.05}
+            out.append(big_case(rng, n, marks, "%d files around delete.go constant %s = %d" % (n, name, c)))
+    if not out:
+        out.append(big_case(rng, 130, set(range(130)), "130 files (delete.go declares no integer constant <= 2000)"))
+    return out
+
+
 def setup():
-    pass
+    translate_params()
 
 
 def warm():
@@ -702,7 +768,12 @@ def run(res, tier, seed):
     n = int(os.environ.get("VERIF_N") or (340 if tier == "quick" else 4000))
     t1 = time.time()
     wit = witness_cases()
-    cases = wit + [gen_case(rng, 1000 + i) for i in range(n)]
+    t0 = time.time()
+    consts = translate_params()
+    res.stage("translate_params", t0)
+    res.cov["params"] = {"delete_go_int_consts": consts}
+    big = big_cases(rng, consts)
+    cases = wit + big + [gen_case(rng, 1000 + i) for i in range(n)]
     out = run_impl(cases, tier)
     res.stage("impl_harness", t1)
     variant = detect_variant(out[0]) if wit else "KeepNotPred"
@@ -736,7 +807,8 @@ def run(res, tier, seed):
             "datasets_with_mixed_numeric_type": sum(1 for c in out if len({file_schema(f)["a"] for f in c["files"]} ) > 1 or len({file_schema(f)["x"] for f in c["files"]}) > 1),
             "datasets_with_absent_column": sum(1 for c in out if any(file_schema(f)["missing"] for f in c["files"])),
             "files_judged_through_union_read": sum(len(c["obs"].get("unbound") or []) for c in out),
-            "runs_with_failed_rewrite_207": sum(1 for c in out if c["obs"]["real"]["status"] == 207)}
+            "runs_with_failed_rewrite_207": sum(1 for c in out if c["obs"]["real"]["status"] == 207),
+            "many_files_cases": [len(c["files"]) for c in out if c.get("kind") == "many-files"]}
     for c in out:
         hist["kind"][c.get("kind", "corpus")] = hist["kind"].get(c.get("kind", "corpus"), 0) + 1
         for k, rr in (("status_real", c["obs"]["real"]), ("status_dry", c["obs"]["dry"])):
